@@ -2,6 +2,7 @@ package c03
 
 import (
 	"strconv"
+	"time"
 	"strings"
 	"testing"
 
@@ -22,6 +23,7 @@ import (
 //	rx D|I|P <hex> <cuts>  decode arbitrary bytes (corpus / replays)
 //	mrd <bit> <cuts>       flip one bit of the packet, ReadPacket over the cut spec (malformed input)
 //	mrdall <bit>           flip one bit, ReadPacket over every single cut
+//	tz <seconds>           set the process' local time zone (time.Local) for the rest of the history
 //	cmp                    repeats the output of the make op (compared with the model HERE)
 func gen(g *common.Gen) {
 	r := g.R
@@ -38,6 +40,12 @@ func gen(g *common.Gen) {
 			mk = GenMkd(r, sh, g, "")
 		default:
 			mk = GenMki(r, sh, g, "")
+		}
+		// certificate-style signers stamp a validity period with time.Now(): run them in a process
+		// zone other than UTC (the instant must round-trip whatever the zone)
+		if strings.Contains(mk, "cert") && r.Chance(3, 4) {
+			g.Op("tz %d", common.Pick(r, []int{32400, -18000, 19800, 3600}))
+			g.Stat("tz")
 		}
 		g.Op("%s", mk)
 		size := EstSize(mk)
@@ -132,6 +140,7 @@ func exec(op string) string {
 	case "new":
 		last, lastBlob, lastMkOut = nil, nil, ""
 		ResetSigners()
+		time.Local = time.UTC
 		return "ok"
 	case "mkd":
 		out, b := MakeData(f)
@@ -147,6 +156,10 @@ func exec(op string) string {
 			OwnSegs = b.SegLens
 		}
 		return out
+	case "tz":
+		// the process' local zone (what TZ / /etc/localtime set): time.Now() values carry it
+		time.Local = time.FixedZone("X", common.Atoi(f[1]))
+		return "ok"
 	case "cmp":
 		if lastMkOut == "" {
 			return "skip"
